@@ -138,7 +138,7 @@ def run_case(case):
     p1 = desc["params"]
     param_sets = [p1]
     if case["kind"] == "generic":
-        p2 = gen.perturb_params(rng, p1)
+        p2 = gen.perturb_params(rng, p1, desc.get("frozen_params", ()))
         r = rng.random()
         p2["beta"] = 0.0 if r < 0.15 else (1.0 if r < 0.3 else (round(1 + 0.1 * rng.random(), 4) if r < 0.45 else p2["beta"]))
         param_sets.append(p2)
@@ -215,7 +215,7 @@ def run_case(case):
             add("jit_false_models")
             if outs and len(out2) == len(outs[0]):
                 for t in range(len(out2)):
-                    if out2[t].shape != outs[0][t].shape or maxdev(out2[t], outs[0][t]) > (1e-12 if bootstrap.X64 else 1e-5):
+                    if out2[t].shape != outs[0][t].shape or maxdev(out2[t], outs[0][t]) > tol:
                         res["violations"].append({"key": "jit_nojit_diff", "what": f"period {t}: jit and non-jit results differ"})
             for t in range(min(len(out2), ref.T)):
                 exp = ref.to_lcm_layout(s["V"][t], t)
